@@ -15,6 +15,7 @@ CLAIMED = {
 }
 CLAIMED["C13"] = "Symbolic execution of the real EVSE/DeadbandEVSE/FiniteRatesEVSE set_pilot/_valid_rate/plugin with symbolic parameters (range ends, deadband end, <=3 unsorted/duplicated rate levels), symbolic pilot and an arbitrary accepted prior pilot, with and without a real EV+Battery in symbolic state: accepted <=> within 1e-3 of the allowable set (z3, linear real arithmetic, every path); rejection leaves pilot/EV/battery valid-equal; every value advertised by the EVSE, the ChargingNetwork cache, Interface and InfrastructureInfo is a member of the set and is accepted by a real set_pilot; occupied plug-in refused."
 CLAIMED["C14"] = "Symbolic execution of the real Battery.charge / Linear2StageBattery._charge from an arbitrary valid state with every parameter a symbolic real: ideal law min(pilot power, max power, fill power) over two consecutive steps; two-stage result compared with the independently derived solution of the documented ODE by cases (constant power / crossing at t* / ramp-down), exp as an uninterpreted function whose argument in the code is first proved equal to the law's exponent (pure rational arithmetic, z3 nlsat) and then the closed forms compared; zero pilot, reset, reset(x) vs fresh battery; relations T = 2 x T/2 (and 3 x T/3), monotone in pilot and in period as two symbolic executions with proved ground instances of exp's functional equation (voltage and capacity concrete scale factors there)."
+CLAIMED["C11"] = "Bounded symbolic model checking of the real EventQueue (heapq on (timestamp, event) tuples, Event.__lt__, get_current_events loop, public to_json()/from_json()): every operation sequence inside the bound (1-2 initial events through the constructor, then 3 (quick) / 4 (thorough) operations from add Unplug/Plugin/Recompute, get_event, get_current_events(t), JSON round trip, get_last_timestamp, then drain) with symbolic integer timestamps and query times; oracle is a pending-multiset model: returned event is pending and minimal in (time, precedence), get_current_events returns exactly the due events in order and leaves the later ones, len/empty/last timestamp agree, a restored queue continues against the same model."
 NA_REASON = "check not built yet (work in progress in this session; see DESIGN.md section 4 for the planned harness)"
 props = [json.loads(l) for l in open(os.path.join(ROOT, "properties.jsonl"))]
 checks, na = [], []
